@@ -164,6 +164,35 @@ PROPS["C03"] = dict(level="proof",
         "solve-level independence (stopping iteration, gain, history, policy value) follows from kernel-level independence because the C08/C04/C07/C05 loop contracts define the trajectory from these kernels and mention no batch parameter",
         "for the semi-asynchronous solver the sweep depends on the partition by design; what is claimed is the error bound for every partition (Lean: gs_* quantify over all lists of blocks)"])
 
+PROPS["C01"] = dict(level="proof",
+    units=[U(V1, f"{VI}.{m}") for m in ["_update_values", "_extract_policy", "_get_span", "_get_max_diff", "_iteration_step", "solve"]]
+        + [U(["contracts.logging_configs"], f"{VI}._setup_convergence_testing", only=["pos."])]
+        + [U(SAM, f"{SA}._calculate_updated_value_scan_state_batches", timeout_ms=30000)]
+        + [U(SAM + ["contracts.vi_solve"], f"{SA}.{m}", timeout_ms=20000) for m in ("_update_values", "_iteration_step", "solve")]
+        + [U(PIM, f"{PI}.{m}") for m in ["_calculate_policy_value_state_batch", "_calculate_policy_values", "_evaluate_policy", "_iteration_step", "_initialize_solver_state_elements"]]
+        + [U(PIM + ["contracts.rvi"], f"{PI}.solve", timeout_ms=20000)],
+    lean=["bell_discop", "bellpol_discop", "bellpol_le_bell", "greedy_eq", "contraction", "le_fixed", "fixed_le", "greedy_bracket", "vi_span_bound", "vi_maxdiff_bound",
+          "eval_bound", "eval_bound_threshold", "pi_bound", "singh_yee", "gs_new_value_near", "contraction_to_fixed_bound"],
+    links={
+      "vi_span_bound / vi_maxdiff_bound": {
+          "hW  (W = T V, T the Bellman operator of the problem)": "ValueIteration._update_values.post.elementwise + ValueIteration.solve.post.values_are_VAL (VAL(k+1) = B(VAL(k)))",
+          "hStop (measure(W - V) < threshold on the convergence path)": "ValueIteration.solve.post.stop_rule + _iteration_step.post.measure",
+          "hThr (threshold = eps(1-gamma)/gamma)": "ValueIteration._setup_convergence_testing.post.threshold",
+          "hGreedy (returned policy greedy for the returned values)": "ValueIteration.solve.post.policy_greedy + _extract_policy.post.attains_max",
+          "hT, hTd (monotone, shift by gamma c)": "Lean bell_discop / bellpol_discop from WF-prob (C13)"},
+      "pi_bound / eval_bound_threshold": {
+          "evaluation iterate v with measure(T_pi v - v) < threshold": "PolicyIteration._evaluate_policy.post.break_means_small_residual + solve.post.eval_converged_when_policy_declared_stable (KNOWN FINDING C01-pi-eval-budget: not established by the code)",
+          "d = pi greedy for v": "PolicyIteration.solve.post.returned_policy_greedy_for_returned_values + early_stop_means_no_component_changed",
+          "T_pi v is the policy backup": "PolicyIteration._calculate_policy_values.post.policy_backup_of_every_state"},
+      "singh_yee / gs_new_value_near / contraction_to_fixed_bound": {
+          "sweep = block Gauss-Seidel for the partition / permutation of that sweep": "SemiAsyncValueIteration._update_values.post.natural_order_gauss_seidel (+ scan0.* carry invariant)",
+          "|OV - V| < threshold on the convergence path (max_diff)": "SemiAsyncValueIteration.solve.post.stop_rule + _iteration_step.post.measure",
+          "returned policy greedy for returned values": "SemiAsyncValueIteration.solve.post.policy_greedy"}},
+    bounded=[dict(name="c01_runtime", script="harness_solvers.py", args=["--prop", "c01"], wall_s=400)],
+    assumptions=SOLVER_ASSUME + ["MDP theory cited, not proved: the optimal value is the fixed point of the Bellman operator T, the exact value of a stationary policy d is the fixed point of T_d (Puterman Thm 6.2.5 / 6.1.1); the Lean theorems are stated for any fixed points",
+        "the correspondence between a Lean hypothesis and the code obligation named in coverage.lean.links is established by reading: both are stated over the same spec functions Q, B, G, B_pi (the Lean side re-declares them)",
+        "WF-prob (probabilities non-negative, summing to one) is a hypothesis on the problem, discharged for the shipped problems under C13"])
+
 HOOK_COMMITS = []
 NOT_APPLICABLE = {
     "C11": "crash atomicity and writer-thread interleavings live inside Orbax's commit protocol, which is not code of this repository; contracts on mdpax's calls can only assume atomic commit, not decide it (DESIGN.md section 6 C11). The contract-shaped fragments (step label, no mutation of a state handed to an asynchronous save, latest-step selection) are discharged under C09/C10/C12.",
